@@ -42,7 +42,8 @@ FINAL = {'Fin', 'FinMod', 'Fail', 'Cnclld', 'CnclldMan'}
 
 def st_history():
     call = st.tuples(st.just('call'), st.integers(0, 1), st.integers(0, 20),
-                     st.sampled_from(['Fin', 'Fin', 'FinMod', 'Fail', 'raise']), st.sampled_from(['direct', 'queued'])).map(list)
+                     st.sampled_from(['Fin', 'Fin', 'FinMod', 'Fail', 'raise', 'raise_bare']),
+                     st.sampled_from(['direct', 'queued'])).map(list)
     step = st.one_of(call, call, call, st.just(['drain']), st.tuples(st.just('call_unknown'), st.integers(0, 1)).map(list))
     return st.lists(step, min_size=1, max_size=14)
 
@@ -86,6 +87,8 @@ class E2E:
             chosen = self.by_message_id.get(mid, self.direct_behaviour)
             if chosen == 'raise':
                 raise RuntimeError('vf handler failure')
+            if chosen == 'raise_bare':
+                raise NotImplementedError  # an exception without arguments (bare raise of a class, failing assert)
             return ExecuteResult(params.operation_instance.operation_target_handle, states[chosen])
         op._operation_handler = handler  # noqa: SLF001
         op.delayed_processing = mode == 'queued'
@@ -161,7 +164,7 @@ class E2E:
         if resp is None:
             self.findings.append((f'{P}/no-response/{kind}', f'{step}: no Set response found on the wire'))
             return
-        expect = 'Fail' if behaviour in ('Fail', 'raise') else behaviour
+        expect = 'Fail' if behaviour in ('Fail', 'raise', 'raise_bare') else behaviour
         self.calls.append({'tx': resp[0], 'consumer': ci % len(self.consumers), 'expect': expect, 'mode': mode,
                            'behaviour': behaviour, 'future': fut, 'response_state': resp[1], 'kind': kind, 'step': step})
 
@@ -205,7 +208,7 @@ class E2E:
                 if final[0] != c['expect']:
                     out.append((f'{P}/wrong-final-state/{c["mode"]}/{c["behaviour"]}',
                                 f'transaction {c["tx"]}: handler {c["behaviour"]}, final report state {final[0]}'))
-                if c['behaviour'] == 'raise' and (final[1] is None or not final[2]):
+                if c['behaviour'] in ('raise', 'raise_bare') and (final[1] is None or not final[2]):
                     out.append((f'{P}/raise-without-error-info/{c["mode"]}', f'transaction {c["tx"]}: error={final[1]} message={final[2]}'))
             want_resp = 'Wait' if c['mode'] == 'queued' else c['expect']
             if c['response_state'] != want_resp:
@@ -233,7 +236,7 @@ def e2e_case(ctx, hist):
         findings = r.final_checks()
     finally:
         r.close()
-    nontrivial = any(s[0] == 'call' and s[3] in ('Fail', 'raise') for s in hist) or r.max_in_flight >= 2
+    nontrivial = any(s[0] == 'call' and s[3] in ('Fail', 'raise', 'raise_bare') for s in hist) or r.max_in_flight >= 2
     ctx.case(hist, nontrivial, 'e2e', classes=tuple({f'{s[3]}/{s[4]}' for s in hist if s[0] == 'call'}) + (
         ('in-flight>=2',) if r.max_in_flight >= 2 else ()))
     return findings
@@ -429,13 +432,78 @@ def shard_e2e(ctx, n):
     R.hyp_campaign(ctx, 'e2e', st_history(), lambda h: e2e_case(ctx, h), n)
 
 
+# ---- transaction ids under concurrent request threads (cooperative scheduler, exhaustive over the schedules)
+def txid_run(n_consumers, calls_each, choices):
+    """Concurrent invocations by several consumers; yield points: acquire / release of the provider's transaction id
+    lock.  -> (findings, taken, branching)"""
+    from vf import sched as S
+    e = E2E(n_consumers=n_consumers)
+    findings = []
+    sched = S.Sched(choices, default='first')
+    provider = e.world.provider
+    saved = provider._transaction_id_lock  # noqa: SLF001
+    try:
+        handle, kind, op = next(x for x in e.ops if x[1] == 'SetStringOperation')
+        e._install(op, 'Fin', 'direct')  # noqa: SLF001
+        provider._transaction_id_lock = S.SchedLock(sched, 'transaction_id_lock', reentrant=False)  # noqa: SLF001
+        log0 = len(L.NET.log)
+
+        def caller(consumer):
+            def body():
+                for _ in range(calls_each):
+                    e._invoke(consumer, handle, kind)  # noqa: SLF001
+            return body
+        for i, (consumer, _m) in enumerate(e.consumers):
+            sched.spawn(f'c{i}', caller(consumer))
+        sched.run()
+        for t in sched.tasks:
+            if t.exc is not None:
+                if not R.exc_in_library(t.exc):
+                    raise t.exc
+                findings.append((f'{P}/txid/call-raises/{R.exc_sig(t.exc)}', str(t.exc)[:200]))
+        ids = []
+        for entry in L.NET.log[log0:]:
+            if entry.response and entry.action and entry.action.endswith('/SetString'):
+                inv = etree.fromstring(entry.response).find(f'.//{{{MSG_NS}}}InvocationInfo')
+                if inv is not None:
+                    ids.append(int(inv.findtext(f'{{{MSG_NS}}}TransactionId')))
+        if len(ids) != n_consumers * calls_each and not findings:
+            findings.append((f'{P}/txid/response-missing', f'{len(ids)} responses for {n_consumers * calls_each} calls'))
+        dup = sorted({i for i in ids if ids.count(i) > 1})
+        if dup:
+            findings.append((f'{P}/txid/transaction-id-not-unique',
+                             f'{n_consumers} consumers x {calls_each} concurrent calls got transaction ids {ids}: {dup} '
+                             f'handed out more than once'))
+    finally:
+        provider._transaction_id_lock = saved  # noqa: SLF001
+        e.close()
+    return findings, list(sched.taken), list(sched.branching)
+
+
+def shard_txid(ctx, n_consumers, calls_each, max_schedules):
+    from vf import sched as S
+    choices, count, complete = [], 0, False
+    while choices is not None and count < max_schedules and not ctx.out_of_budget():
+        findings, taken, branching = txid_run(n_consumers, calls_each, choices)
+        count += 1
+        case = {'consumers': n_consumers, 'calls_each': calls_each, 'choices': taken}
+        ctx.case(case, any(taken), 'txid')
+        for sig, detail in findings:
+            ctx.finding(sig, detail, case, 'txid')
+        choices = S.next_dfs(taken, branching)
+        complete = choices is None
+    ctx.count('txid/scenarios-complete' if complete else 'txid/scenarios-truncated')
+
+
 def run(ctx):
     q = ctx.tier == 'quick'
     R.run_shards(ctx, __name__, 'shard_opmgr', [(1, 0, 1, None)] + [(2, i, 7, None if not q else 3) for i in range(7)])
     if not q:
         ctx.exhaustive_parts.append('opmgr')
         R.run_shards(ctx, __name__, 'shard_opmgr', [(3, i, 16, 2) for i in range(16)])
-    R.run_shards(ctx, __name__, 'shard_e2e', [(20 if q else 300,)] * R.NPROC)
+    R.run_shards(ctx, __name__, 'shard_e2e', [(20 if q else 300,)] * (R.NPROC - 2))
+    R.run_shards(ctx, __name__, 'shard_txid', [(2, 1, 40), (2, 2, 40 if q else 400)] if q else [
+        (2, 1, 100), (2, 2, 400), (3, 1, 400), (3, 2, 1500)])
 
 
 def replay(part, case):
@@ -443,4 +511,6 @@ def replay(part, case):
     W.quiet_logging()
     if part == 'opmgr':
         return opmgr_case(ctx, case)
+    if part == 'txid':
+        return txid_run(case['consumers'], case['calls_each'], case['choices'])[0]
     return e2e_case(ctx, case)
